@@ -324,6 +324,24 @@ static Footprint measure_footprint() {
 
 
 // ---------------------------------------------------------------- C07: OS refusals
+// Per-thread metadata is a small mapping of its own that is cached when the thread ends and released by a forced collect of the main thread.
+// Its length is learned by behaviour in the zygote (appears when a thread has run, disappears on mi_collect(true)), so that the quiescence
+// clause can tell it from the allocator's permanent small mappings (segment map parts, arena descriptors).
+static std::vector<size_t> g_td_lens;
+static std::map<size_t, long> small_region_lens() {
+  std::map<size_t, long> out; static vf_region_t regs[8192]; size_t n = vf_regions(regs, 8192);
+  std::vector<std::pair<uintptr_t, uintptr_t>> ars; for (int id = 1; id <= 64; id++) { size_t sz = 0; void* a = mi_arena_area((mi_arena_id_t)id, &sz); if (!a) break; ars.push_back({ (uintptr_t)a, (uintptr_t)a + sz }); }
+  for (size_t i = 0; i < n; i++) { if (regs[i].len > 64*KiB) continue; bool in = false; for (auto& a : ars) if (regs[i].addr < a.second && a.first < regs[i].addr + regs[i].len) in = true; if (!in) out[regs[i].len]++; }
+  return out;
+}
+static void learn_thread_metadata_len() {
+  mi_free(mi_malloc(8)); mi_collect(true);
+  auto a = small_region_lens();
+  { ThreadJob j; j.is_alloc = true; j.n = 8; j.k = 1; j.f = "malloc"; run_thread(j); for (void* p : j.ptrs) mi_free(p); }
+  auto b = small_region_lens(); mi_collect(true); auto c = small_region_lens();
+  for (auto& kv : b) { long before = a.count(kv.first) ? a[kv.first] : 0, after = c.count(kv.first) ? c[kv.first] : 0; if (kv.second > before && after <= before) g_td_lens.push_back(kv.first); }
+}
+static long count_td_regions() { if (g_td_lens.empty()) return 0; auto m = small_region_lens(); long n = 0; for (size_t l : g_td_lens) if (m.count(l)) n += m[l]; return n; }
 static void c07_event(int kind, void* addr, size_t len, int, int failed) {
   Exec* e = g_exec; if (!e) return;
   if (failed) { e->count(C_FAULT_HIT); if (kind == VF_UNMAP) e->refused_unmaps.push_back({ (uintptr_t)addr, len }); }
@@ -338,6 +356,7 @@ void Exec::op_c07(const Op& op) {
     // inaccessible page inside recycled memory and a later allocation crashes. Excluded by construction: one-page mprotect(RW) calls are not fault positions.
     if (!known_f12_off) vf_set_commit_min_len(4096);
 #endif
+    td_regions_base = count_td_regions();
     vf_arm(k, (long)op.num("k"), (int)op.num("pers")); allow_null = true; ever_faulted = true; return; }
   if (nm == "recover") {
     vf_disarm(); allow_null = false;
@@ -369,6 +388,8 @@ void Exec::op_c07(const Op& op) {
     bool other_subproc = (m.subprocs[0] != nullptr || m.subprocs[1] != nullptr);   // memory left in a sub-process without threads can only be released by a thread of that sub-process
     if (!other_subproc && !ever_faulted && opt_purge_delay >= 0 && opt_purge_decommits && f.arena_resident > 64) fail_now("arena-still-committed", "op#%ld after free-all and a forced collect %zu pages inside arenas are still resident (a freed segment was not released?)", opi, f.arena_resident);
     if (other_subproc) return;
+    if (td_regions_base >= 0 && !g_td_lens.empty()) { long now = count_td_regions(); long small_excuse = 0; for (auto& ru : refused_unmaps) for (size_t l : g_td_lens) if (ru.second == l) small_excuse++;
+      if (now > td_regions_base + small_excuse) fail_now("thread-metadata-not-given-back", "op#%ld after recovery, free-all and a forced collect %ld mapping(s) of the size of a thread's metadata (%zu bytes) are still mapped (%ld before the workload, %ld explained by refused munmap): every thread has ended", opi, now, g_td_lens[0], td_regions_base, small_excuse); }
     if (f.big_outside > excuse) fail_now("not-given-back", "op#%ld after recovery, free-all and a forced collect %zu non-arena region(s) are still mapped (%zu explained by refused munmap), first [%p,+%zu)", opi, f.big_outside, excuse, (void*)f.first_big, f.first_big_len);
     return;
   }
